@@ -80,7 +80,9 @@ func c05Gate(w *World, r *Report, exp *types.Named) {
 				}
 			}
 		}
-		for _, c := range findCalls(fn, func(c *ssa.CallCommon) bool { return methodCallNamed(c, "Validate") && lastResultIsError(c.Signature()) }) {
+		for _, c := range findCalls(fn, func(c *ssa.CallCommon) bool {
+			return methodCallNamed(c, "Validate") && lastResultIsError(c.Signature())
+		}) {
 			rv := callRecv(c.Common())
 			for _, d := range dests {
 				if root, _ := accessPath(rv); root == d || rv == d {
@@ -532,7 +534,10 @@ func c05Tables(w *World, r *Report) {
 	if ctor != nil {
 		ok := false
 		for _, c := range findCalls(ctor, func(c *ssa.CallCommon) bool { return c.StaticCallee() == def }) {
-			if onlyVia(ctor, c.Block(), func(f Fact) bool { l, k := lenFact(f); return l != nil && k == "empty" && pathEndsWith(l, "AllowedAlgorithms") }) {
+			if onlyVia(ctor, c.Block(), func(f Fact) bool {
+				l, k := lenFact(f)
+				return l != nil && k == "empty" && pathEndsWith(l, "AllowedAlgorithms")
+			}) {
 				ok = true
 			}
 		}
